@@ -7,12 +7,9 @@ import (
 	"encoding/json"
 	"fmt"
 	"regexp"
-	"sort"
-	"strconv"
 	"strings"
 
 	"github.com/icon-project/goloop/common"
-	"github.com/icon-project/goloop/common/crypto"
 	"github.com/icon-project/goloop/module"
 	"github.com/icon-project/goloop/service/transaction"
 )
@@ -31,7 +28,21 @@ func c12Gen(g *Gen) {
 		case 4, 5:
 			v := c12RandValue(g, 3, g.Intn(8) == 0)
 			g.Emit("ser %s", hx([]byte(c12Text(g, g.Intn(3), v))))
-		case 6, 7, 8:
+		case 6:
+			// a nested key named like a top-level field (signature, txHash, from, ...) is signed
+			t := c12NewTx(g, false)
+			a, b, key := c12NestedField(g)
+			t.obj = c12Set(c12Del(c12Del(t.obj, "dataType"), "data"), "data", a)
+			if g.Intn(2) == 0 {
+				t.obj = c12Set(t.obj, "dataType", "message")
+			}
+			t.sign(g, g.Pick(0, 1))
+			m := c12Set(append(c12Obj{}, t.obj...), "data", b)
+			g.Emit("mut diff:nested-%s %s %s", key, hx([]byte(c12Text(g, g.Intn(3), t.obj))), hx([]byte(c12Text(g, g.Intn(3), m))))
+			if g.Intn(2) == 0 {
+				g.Emit("tx %s %s", hx([]byte(c12Text(g, g.Intn(3), t.obj))), t.expect())
+			}
+		case 7, 8:
 			t := c12NewTx(g, g.Intn(4) == 0)
 			t.sign(g, g.Pick(0, 0, 1, 3))
 			m, same, what := c12Mutate(g, t)
@@ -61,72 +72,6 @@ func c12Gen(g *Gen) {
 var c12BigLit = regexp.MustCompile(`[:\[,][ \t\r\n]*-?[0-9]{16,}`)
 
 type c12Runner struct{}
-
-// c12SpecSer: the ICON serialisation written down independently of
-// service/transaction/serialize.go (used by the oracle only).
-func c12SpecSer(v interface{}) (string, bool) {
-	esc := func(s string) string {
-		r := strings.NewReplacer("\\", "\\\\", "{", "\\{", "}", "\\}", "[", "\\[", "]", "\\]", ".", "\\.")
-		return r.Replace(s)
-	}
-	switch x := v.(type) {
-	case nil:
-		return "\\0", true
-	case string:
-		return esc(x), true
-	case float64:
-		return strconv.FormatInt(int64(x), 10), true
-	case []interface{}:
-		out := ""
-		for _, e := range x {
-			f, ok := c12SpecSer(e)
-			if !ok {
-				return "", false
-			}
-			if out != "" {
-				out += "."
-			}
-			out += f
-		}
-		return "[" + out + "]", true
-	case map[string]interface{}:
-		f, ok := c12SpecDict(x, nil)
-		return "{" + f + "}", ok
-	}
-	return "", false
-}
-
-func c12SpecDict(m map[string]interface{}, skip map[string]bool) (string, bool) {
-	keys := []string{}
-	for k := range m {
-		if !skip[k] {
-			keys = append(keys, k)
-		}
-	}
-	sort.Strings(keys)
-	parts := []string{}
-	for _, k := range keys {
-		f, ok := c12SpecSer(m[k])
-		if !ok {
-			return "", false
-		}
-		ek, _ := c12SpecSer(k)
-		parts = append(parts, ek+"."+f)
-	}
-	return strings.Join(parts, "."), true
-}
-
-func c12SpecID(js []byte) ([]byte, bool) {
-	var m map[string]interface{}
-	if err := json.Unmarshal(js, &m); err != nil {
-		return nil, false
-	}
-	body, ok := c12SpecDict(m, map[string]bool{"signature": true, "txHash": true})
-	if !ok {
-		return nil, false
-	}
-	return crypto.SHA3Sum256([]byte("icx_sendTransaction." + body)), true
-}
 
 func c12Show(tx module.Transaction) (string, []string) {
 	f, raw, ok := transaction.VerifC12Fields(tx)
